@@ -92,4 +92,14 @@ C02 = _write("C02", "c02", "every chord's strikes at Start(i) and releases at St
 C06 = _write("C06", "c06", "merged events of --track N = those of --track 1; every track's end-of-track at the total length")
 C07 = _write("C07", "c07", "control events demanded by the document (and flags) present at the start of their instance with the written value, nothing else; velocity persistence and order")
 
-PLANS = {"C01": C01, "C02": C02, "C06": C06, "C07": C07, "C08": C08, "C17": C17, "C15": C15, "C14": C14, "C13": C13, "C03": C03}
+def C16(s, known):
+    s.build()
+    s.model("TheoryMC", workers=4)
+    m = s.drive("c16")
+    s.validate(m, "C16Trace", known=known, shard=max(20, len_records(m) // 12 + 1))
+    return dict(level="model_checking",
+                explanation="Dict.tla: load-ordered definitions, later wins, parent-first transitive resolution, accept iff named, no dangling reference, "
+                            "acyclic. Every enumerated user dictionary is loaded by the real binary and every user name/display played; built-ins by name and display")
+
+
+PLANS = {"C16": C16, "C01": C01, "C02": C02, "C06": C06, "C07": C07, "C08": C08, "C17": C17, "C15": C15, "C14": C14, "C13": C13, "C03": C03}
